@@ -124,10 +124,14 @@ func (i *EncryptedSSHIdentity) Unwrap(stanzas []*age.Stanza) (fileKey []byte, er
 		return nil, fmt.Errorf("unexpected SSH key type: %T", k)
 	}
 	if err != nil {
+		i.decrypted = nil
 		return nil, fmt.Errorf("invalid SSH key: %v", err)
 	}
 
 	if exp := i.pubKey.(ssh.CryptoPublicKey).CryptoPublicKey(); !pubKey.Equal(exp) {
+		// Only a key that was validated against the expected public key may
+		// be cached for later calls.
+		i.decrypted = nil
 		return nil, fmt.Errorf("mismatched private and public SSH key")
 	}
 
